@@ -122,4 +122,13 @@ pub fn children_vec<N, const K: usize>(t: &Tree<N, K>, idx: usize) -> (r: Vec<Ed
     }
     v
 }
+
+// rule I8: `T.terminal_indices().collect_vec()` — indices of the nodes flagged as leaf, in arena order.
+// TRUSTED (slab's iteration order and iterator adapters are outside Verus); validated by bc traversal (index-order iterators).
+#[verifier::external_body]
+pub fn terminal_indices_vec<N, const K: usize>(t: &Tree<N, K>) -> (r: Vec<usize>)
+    ensures
+        forall|i: usize| r@.contains(i) <==> t.arena@.dom().contains(i) && t.arena@[i].isleaf,
+        forall|j1: int, j2: int| 0 <= j1 < j2 < r@.len() ==> r@[j1] < r@[j2],
+{ unimplemented!() }
 // ---- end tree_helpers ----
